@@ -13,6 +13,7 @@ RULE = (
     "E1 exhaustive over (dividend, divisor): for every level-0 contract pair (c1,c2) of the cascade, shared-input, mix, "
     "two-internal-variable and feedback wirings: dividend variants {c1 composed with c2 (so that a quotient exists); that "
     "composition with each guarantee constant relaxed by one step; with an extra assumption that the divisor does not make; "
+    "with assumptions that contradict the divisor's (primitive calls fail inside the quotient); "
     "c2 itself and c1 itself as unrelated dividends} x divisor in {c1, c2} (both missing-component roles) x every "
     "additional_inputs subset of (dividend inputs + divisor outputs) of size <=1 plus the full set x simplify {True,False} x "
     "tactics_order default; when the default run reports a tactic invocation also reversed, each singleton and []. "
@@ -60,6 +61,20 @@ def _dividends(c1, c2):
                 out.append(("extra-assumption", PolyhedralIoContract(a, top.g.copy(), list(top.inputvars), list(top.outputvars))))
             except ValueError:
                 pass
+        # dividend whose assumptions contradict the divisor's: every refinement in the divisor's context is infeasible
+        for div in (c1, c2):
+            shared = [v for v in top.inputvars if v in div.inputvars]
+            if shared and div.a.terms:
+                t = div.a.terms[0]
+                if len(t.variables) == 1 and list(t.variables)[0] in shared:
+                    v = list(t.variables)[0]
+                    co = t.variables[v]
+                    a = PolyhedralTermList([PolyhedralTerm({v: -co}, -t.constant - 1), PolyhedralTerm({v: co}, t.constant + 3)])
+                    try:
+                        out.append(("contradicting", PolyhedralIoContract(a, top.g.copy(), list(top.inputvars), list(top.outputvars), simplify=False)))
+                    except ValueError:
+                        pass
+                    break
     out.append(("unrelated", c2))
     out.append(("unrelated", c1))
     return out
